@@ -39,6 +39,21 @@ func Spec() *mon.Spec {
 
 func gen(g *mon.Gen) {
 	rng := g.Rng
+	// two-field cubes (one case per value of the 8-bit field, all 65536 values of the 16-bit one)
+	cubeVals := []int{0, 1, 3, 6, 16, 17, 23, 58, 255}
+	if g.Thorough() {
+		cubeVals = cubeVals[:0]
+		for v := 0; v < 256; v++ {
+			cubeVals = append(cubeVals, v)
+		}
+	} else {
+		for k := 0; k < 7; k++ {
+			cubeVals = append(cubeVals, rng.Intn(256))
+		}
+	}
+	for _, v := range cubeVals {
+		g.Emit(&Case{Kind: "cube", Lo: v, Seed: rng.Int63()})
+	}
 	for fr := 0; fr < 2; fr++ {
 		for _, fc := range []uint8{1, 2, 3, 4, 15, 16} {
 			max := map[uint8]int{1: 2000, 2: 2000, 3: 125, 4: 125, 15: 1968, 16: 123}[fc]
@@ -202,8 +217,82 @@ func checkIllegal(c *Case, r *mon.Rec, fr specref.Framing, q specref.Req, what s
 	}
 }
 
+// runCube: legal requests over (8-bit field = c.Lo) x (all values of a 16-bit field):
+// RTU: unit id x start address / value through ParseRTURequest, ParseRTURequestWithCRC;
+// TCP: low byte of the transaction id x last 16-bit field (value / register) and unit id x transaction id through ParseTCPRequest.
+func runCube(c *Case, r *mon.Rec) {
+	rng := rand.New(rand.NewSource(c.Seed))
+	b8 := uint8(c.Lo)
+	bad := 0
+	n := 0
+	try := func(what string, req packet.Request, err error, parse func([]byte) (any, error), pname string) {
+		if err != nil {
+			return
+		}
+		wire := req.Bytes()
+		n++
+		v, perr := parse(append([]byte{}, wire...))
+		switch {
+		case perr != nil:
+			bad++
+			if bad <= 4 {
+				r.Violate(c, "refuses-legal", mon.Attrs{"entry": pname, "fc": int(req.FunctionCode()), "cube": what}, fmt.Sprintf("legal request encoded by the library as % x refused: %v", head(wire), perr))
+			}
+		case !bytes.Equal(v.(packet.Request).Bytes(), wire):
+			bad++
+			if bad <= 4 {
+				r.Violate(c, "reencode-differs", mon.Attrs{"entry": pname, "fc": int(req.FunctionCode()), "cube": what}, fmt.Sprintf("% x -> % x", head(wire), head(v.(packet.Request).Bytes())))
+			}
+		}
+	}
+	rtu := func(b []byte) (any, error) { return packet.ParseRTURequest(b) }
+	rtuc := func(b []byte) (any, error) { return packet.ParseRTURequestWithCRC(b) }
+	tcp := func(b []byte) (any, error) { return packet.ParseTCPRequest(b) }
+	hi := uint16(rng.Intn(256)) << 8
+	addr := uint16(rng.Intn(65536))
+	for v := 0; v < 65536; v++ {
+		x := uint16(v)
+		// RTU: unit b8, field x
+		q3, e3 := packet.NewReadHoldingRegistersRequestRTU(b8, x, 2)
+		try("rtu unit x address", q3, e3, rtu, "ParseRTURequest")
+		try("rtu unit x address", q3, e3, rtuc, "ParseRTURequestWithCRC")
+		q6, e6 := packet.NewWriteSingleRegisterRequestRTU(b8, addr, []byte{byte(v >> 8), byte(v)})
+		try("rtu unit x value", q6, e6, rtuc, "ParseRTURequestWithCRC")
+		if r.Thorough() || v%4 == 1 {
+			q1, e1 := packet.NewReadCoilsRequestRTU(b8, x, 16)
+			try("rtu unit x address", q1, e1, rtuc, "ParseRTURequestWithCRC")
+			q16, e16 := packet.NewWriteMultipleRegistersRequestRTU(b8, x, []byte{1, 2})
+			try("rtu unit x address", q16, e16, rtuc, "ParseRTURequestWithCRC")
+		}
+		// TCP: transaction id low byte b8 x last 16-bit field
+		t6, te6 := packet.NewWriteSingleRegisterRequestTCP(uint8(v>>3), addr, []byte{byte(v >> 8), byte(v)})
+		if te6 == nil {
+			t6.TransactionID = hi | uint16(b8)
+		}
+		try("tcp tid-low x value", t6, te6, tcp, "ParseTCPRequest")
+		t16, te16 := packet.NewWriteMultipleRegistersRequestTCP(3, addr, []byte{9, 9, byte(v >> 8), byte(v)})
+		if te16 == nil {
+			t16.TransactionID = hi | uint16(b8)
+		}
+		try("tcp tid-low x last register", t16, te16, tcp, "ParseTCPRequest")
+		// TCP: unit b8 x transaction id x
+		t3, te3 := packet.NewReadHoldingRegistersRequestTCP(b8, addr, 7)
+		if te3 == nil {
+			t3.TransactionID = x
+		}
+		try("tcp unit x tid", t3, te3, tcp, "ParseTCPRequest")
+	}
+	r.Eval(n)
+	r.Distinct(mon.Mix(0xC0BE, uint64(c.Lo)))
+	r.CoverN("cube", "frames", int64(n))
+}
+
 func run(ci any, r *mon.Rec) {
 	c := ci.(*Case)
+	if c.Kind == "cube" {
+		runCube(c, r)
+		return
+	}
 	fr := specref.Framing(c.Framing)
 	rng := rand.New(rand.NewSource(c.Seed))
 	switch c.Kind {
